@@ -265,6 +265,28 @@ func indexGuarded(f *ssa.Function, idx, x ssa.Value, at *ssa.BasicBlock) bool {
 // rangeIndexOf: idx is the index of a `for i := range s` loop (SSA rangeindex form) and at is inside its body;
 // returns the ranged slice/len bound value.
 func rangeBound(idx ssa.Value, at *ssa.BasicBlock) (bound ssa.Value, ok bool) {
+	// counter loop form: i = phi[0, i+1]; header tests i < bound
+	if phi, isPhi := canonConv(idx).(*ssa.Phi); isPhi {
+		okInit, okStep := false, false
+		for _, e := range phi.Edges {
+			if k, isK := cInt(e); isK {
+				okInit = k == 0
+				continue
+			}
+			if bo, isBo := canonConv(e).(*ssa.BinOp); isBo && bo.Op == token.ADD && bo.X == ssa.Value(phi) {
+				if one, isOne := cInt(bo.Y); isOne && one == 1 {
+					okStep = true
+				}
+			}
+		}
+		hb := phi.Block()
+		if ifi, isIf := hb.Instrs[len(hb.Instrs)-1].(*ssa.If); isIf && okInit && okStep {
+			if c, isC := ifi.Cond.(*ssa.BinOp); isC && c.Op == token.LSS && canonConv(c.X) == ssa.Value(phi) && edgeDominates(hb, 0, at) {
+				return c.Y, true
+			}
+		}
+		return nil, false
+	}
 	bo, isBo := canonConv(idx).(*ssa.BinOp)
 	if !isBo || bo.Op != token.ADD {
 		return nil, false
